@@ -86,7 +86,11 @@ func execTwo(s *scenario) string {
 		return "bad-op"
 	}
 	w := getWorld(s.world)
-	ci, err := w.instantiate()
+	cache := uint64(1 << 20)
+	if s.uc {
+		cache = 0
+	}
+	ci, err := w.instantiateCache(cache)
 	if err != nil {
 		panic(err)
 	}
@@ -109,7 +113,13 @@ func execTwo(s *scenario) string {
 	policy := &mining.Policy{BlockMinWeight: s.minW, BlockMaxWeight: s.maxW, BlockPrioritySize: s.prioSize,
 		TxMinFreeFee: btcutil.Amount(s.minFree), BlockMinSize: s.minW / 4, BlockMaxSize: s.maxW / 4}
 	genA := mining.NewBlkTmplGenerator(policy, ci.params, s.stubFor(bp, nA, best.Height), ci.chain, ci.clock, ci.sigc, ci.hashc)
-	genB := mining.NewBlkTmplGenerator(policy, ci.params, s.stubFor(bp, nB, best.Height), ci.chain, ci.clock, ci.sigc, ci.hashc)
+	policyB := policy
+	if s.polBSet { // the configuration changed between the two calls
+		policyB = &mining.Policy{BlockMinWeight: uint32(s.polB[0]), BlockMaxWeight: uint32(s.polB[1]),
+			BlockPrioritySize: uint32(s.polB[2]), TxMinFreeFee: btcutil.Amount(s.polB[3]),
+			BlockMinSize: uint32(s.polB[0]) / 4, BlockMaxSize: uint32(s.polB[1]) / 4}
+	}
+	genB := mining.NewBlkTmplGenerator(policyB, ci.params, s.stubFor(bp, nB, best.Height), ci.chain, ci.clock, ci.sigc, ci.hashc)
 	var pay address.Address
 	if s.addr {
 		pay = payAddress(ci.params)
